@@ -222,8 +222,12 @@ class ControlVariates:
             if np.any(np.diag(sigma_x) <= 1e-24 * second_moments):
                 b_star = np.zeros_like(sigma_xy)
             else:
-                inv_sigma_x = np.linalg.inv(sigma_x)
-                b_star = inv_sigma_x @ sigma_xy
+                # least-squares solution of the normal equations sigma_x b = sigma_xy on the correlation scale: also
+                # defined (and stable) when the controls are collinear, where inverting sigma_x amplifies rounding
+                # errors without bound, and independent of the units of the controls
+                scale = np.sqrt(np.diag(sigma_x))
+                correlation = sigma_x / np.outer(scale, scale)
+                b_star = np.linalg.lstsq(correlation, sigma_xy / scale, rcond=None)[0] / scale
         except np.linalg.LinAlgError:
             logging.log(
                 level=logging.WARNING,
